@@ -43,7 +43,13 @@ PROP = dict(
                            "receiver:stream-input": 1000, "receiver:stream-input-with-id": 300,
                            "state:input-empty-message-after-retry": 1000, "state:stream-empty-message-after-retry": 1000,
                            "mpt_stream_push(raw)": 20000, "mpt_stream_push(raw terminate)": 5000, "mpt_stream_flush(raw)": 10000,
-                           "monitor:raw-stream-wire-compare": 5000, "state:raw-stream-push-larger-than-free-space": 10000}),
+                           "monitor:raw-stream-wire-compare": 5000, "state:raw-stream-push-larger-than-free-space": 10000,
+                           "mpt_stream_poll(timeout 0, decides)": 100000, "receiver:stream-dispatch-driven-by-poll": 1000,
+                           "state:poll-asked-with-waiting-message-and-no-input": 3000, "state:poll-waiting-empty-message": 500,
+                           "state:poll-waiting-empty-message-after-hangup": 30, "transport:peer-closed-before-all-was-dispatched": 1000,
+                           "mpt_stream_setmode(writer, same mode)": 30000, "mpt_stream_setmode(reader, same mode)": 20000,
+                           "state:setmode-writer-with-unflushed-frames": 10000, "state:setmode-writer-with-open-message": 20000,
+                           "state:setmode-reader-with-partial-frame": 10000}),
               dict(name="c02_cxx", src=["c02_cxx.cpp"], libs=["mpt++", "mptio", "mptplot", "mptcore"], batch=64,
                    floors={"encode_queue::push": 300000, "encode_queue::trim": 300000, "decode_queue::advance": 500000,
                            "decode_queue::current_message": 100000, "decode_queue::current_message(no cont)": 30000,
@@ -74,6 +80,10 @@ PROP = dict(
                                 "stream leg: transports are non-blocking pipes and AF_UNIX stream sockets; datagram mode is not driven",
                                 "raw mode: push takes min(length, free space), push(0,0) commits, push(1,NULL) drops the pending part, anything else with NULL data is refused "
                                 "(queue_push.c); a stream without encoder ends a message with the platform line separator",
+                                "reader style 'while (mpt_stream_poll(POLLIN, 0) > 0) mpt_stream_dispatch()': until fixes/C02-01 and C02-02 are merged the peer "
+                                "closes pipes only and the harness reader dispatches itself when undecoded input sits behind the decoder position "
+                                "(counter polled:undecoded-input-not-announced; -DC02_HANGUP_ON_SOCKETS=1 -DC02_STRICT_POLL=1 switch both off)",
+                                "mpt_stream_setmode with the buffer mode a stream already has leaves queues and coding state alone (MesgActive/FlushLine bits not asserted)",
                                 "mpt_stream_input with id length n: messages carry n id bytes with the reply bit clear; the handler sees the rest",
                                 "mpt_queue_peek: return value and copied bytes are only required to be the decoded length / a prefix of the next message"],
     )
